@@ -5,6 +5,7 @@ pub mod c04;
 pub mod c05;
 pub mod c06;
 pub mod c07;
+pub mod c08;
 pub mod c12;
 pub mod c13;
 pub mod c15;
@@ -50,6 +51,7 @@ pub fn run(prop: &str, tier: Tier, seed: u64, out: &str) -> bool {
         "C05" => c05::run(tier, seed, out),
         "C06" => c06::run(tier, seed, out),
         "C07" => c07::run(tier, seed, out),
+        "C08" => c08::run(tier, seed, out),
         "C09" => baseline_hist::run(baseline_hist::Which::C09, tier, seed, out),
         "C10" => baseline_hist::run(baseline_hist::Which::C10, tier, seed, out),
         "C11" => baseline_hist::run(baseline_hist::Which::C11, tier, seed, out),
